@@ -277,3 +277,66 @@ Proof.
           (https_names_frame cs l' g (q_port q) (H g)).
   reflexivity.
 Qed.
+
+(* ---- Namespaces: they matter only through the label selectors of listeners. A change to Namespaces under which every selector
+   of every listener gives the same verdict for every Namespace changes the answer to no request. The change processor's
+   criterion - the Namespace matched a selector when the graph was built, or matches one now - is the instance "both verdicts
+   are false". *)
+
+Definition with_namespaces (cs : cluster) (l : list nsobj) : cluster :=
+  {| c_classes := c_classes cs; c_gateways := c_gateways cs; c_routes := c_routes cs; c_services := c_services cs;
+     c_secrets := c_secrets cs; c_grants := c_grants cs; c_namespaces := l; c_btps := c_btps cs; c_cms := c_cms cs |}.
+
+Definition selector_verdict (nss : list nsobj) (sel : list (string * string)) (rns : string) : bool :=
+  match find (fun n => seqb (n_name n) rns) nss with
+  | Some n => labels_match sel (n_labels n)
+  | None => false
+  end.
+
+Definition selectors_agree (cs : cluster) (l' : list nsobj) : Prop :=
+  forall sel rns, selector_verdict (c_namespaces cs) sel rns = selector_verdict l' sel rns.
+
+Lemma ns_allowed_frame cs l' g l rns :
+  selectors_agree cs l' -> ns_allowed (with_namespaces cs l') g l rns = ns_allowed cs g l rns.
+Proof.
+  intros H. unfold ns_allowed. destruct (l_from l) as [| |sel]; try reflexivity.
+  change (c_namespaces (with_namespaces cs l')) with l'.
+  fold (selector_verdict l' sel rns). fold (selector_verdict (c_namespaces cs) sel rns). symmetry. apply H.
+Qed.
+
+Lemma attached_hosts_ns_frame cs l' g l r :
+  selectors_agree cs l' -> attached_hosts (with_namespaces cs l') g l r = attached_hosts cs g l r.
+Proof. intros H. unfold attached_hosts. rewrite (ns_allowed_frame cs l' g l (rt_ns r) H). reflexivity. Qed.
+
+Lemma port_bindings_ns_frame cs l' g port :
+  selectors_agree cs l' -> port_bindings (with_namespaces cs l') g port = port_bindings cs g port.
+Proof.
+  intros H. unfold port_bindings. apply flat_map_ext_in'. intros l _.
+  change (listener_valid (with_namespaces cs l') g l) with (listener_valid cs g l).
+  destruct ((l_port l =? port)%Z && listener_valid cs g l); [|reflexivity].
+  apply flat_map_ext_in'. intros r _. rewrite (attached_hosts_ns_frame cs l' g l r H). reflexivity.
+Qed.
+
+Lemma https_names_ns_frame cs l' g port :
+  selectors_agree cs l' -> https_listener_names (with_namespaces cs l') g port = https_listener_names cs g port.
+Proof.
+  intros H. unfold https_listener_names.
+  change (valid_listeners_on (with_namespaces cs l') g port) with (valid_listeners_on cs g port).
+  apply flat_map_ext_in'. intros l _. destruct (l_proto l); try reflexivity.
+  assert (He : existsb (fun r => match attached_hosts (with_namespaces cs l') g l r with [] => false | _ => true end) (c_routes cs) =
+               existsb (fun r => match attached_hosts cs g l r with [] => false | _ => true end) (c_routes cs)).
+  { induction (c_routes cs) as [|r rs IH]; simpl; [reflexivity|].
+    rewrite (attached_hosts_ns_frame cs l' g l r H), IH. reflexivity. }
+  change (c_routes (with_namespaces cs l')) with (c_routes cs). rewrite He. reflexivity.
+Qed.
+
+Theorem irrelevant_namespace_changes_change_no_answer cs l' q :
+  selectors_agree cs l' -> decide (with_namespaces cs l') q = decide cs q.
+Proof.
+  intros H. unfold decide.
+  change (winning_gateway (with_namespaces cs l')) with (winning_gateway cs).
+  destruct (winning_gateway cs) as [g|]; [|reflexivity].
+  change (valid_listeners_on (with_namespaces cs l') g (q_port q)) with (valid_listeners_on cs g (q_port q)).
+  rewrite (port_bindings_ns_frame cs l' g (q_port q) H), (https_names_ns_frame cs l' g (q_port q) H).
+  reflexivity.
+Qed.
